@@ -640,8 +640,10 @@ class UnitsContainer(Mapping[str, Scalar]):
             raise TypeError(err.format(type(other)))
 
         new = self.copy()
-        for key, value in new._d.items():
+        for key in list(new._d):
             new._d[key] *= other
+            if new._d[key] == 0:
+                del new._d[key]
         new._hash = None
         return new
 
@@ -866,6 +868,8 @@ class ParserHelper(UnitsContainer):
         d = self._d.copy()
         for key in self._d:
             d[key] *= other
+            if d[key] == 0:
+                del d[key]
         return self.__class__(self.scale**other, d, non_int_type=self._non_int_type)
 
     def __truediv__(self, other):
